@@ -25,12 +25,8 @@ def mergeTags (pa pb : Fib Int Nat) (rawA rawB : Nat) : List String :=
     format "U" with shape `n`: every coordinate `0..n-1` (stored payload, explicit defaults included,
     or a fresh default) -/
 def presentRef (fmt : String) (lo shape : Nat) (dflt : Int) (d : Nat) (f : T (d + 1)) : Fib Int (Option Nat) :=
-  if fmt == "U" then
-    (List.range (shape - lo)).map (fun (n : Nat) =>
-      let c : Int := Int.ofNat (n + lo)
-      let l := (show List (Int × T d) from f)
-      let i := lowerBound l c
-      (c, match l[i]? with | some e => if e.1 = c then some i else none | none => none))
+  -- "U": `Ft.presentDense` = C07's dense iteration over [lo, shape) (theorem `presentDense_spec`)
+  if fmt == "U" then presentDense (defaultTree dflt d) (Int.ofNat lo) (Int.ofNat shape) (show Fib Int (T d) from f)
   else (presentPos dflt d f).map (fun e => (e.1, some e.2))
 
 def rawRef (d : Nat) (f : T (d + 1)) : Fib Int Nat :=
